@@ -192,42 +192,15 @@ theorem emitIW_neutralS (fw bg wmb single txt : Bool) (kids : List SChild) : Neu
   cases fw <;> cases bg <;> cases wmb <;>
     exact sandwichS _ _ _ false false _ (by rfl) hk (by rfl) sd
 
-theorem wTrans_neutralS (forceSec : Bool) (prev : Prev) : NeutralS (wTrans forceSec prev) := by
-  cases prev with
-  | none => exact neutralS_nil
-  | raw => exact neutralS_nil
-  | sec pfw => cases pfw <;> cases forceSec <;> exact closedS _ (by rfl)
-
 theorem rawToks_neutralS (b : Bool) : NeutralS (rawToks b) := neutralS_of_neutral (rawToks_neutral b)
-
-theorem wKids_neutralS (fr fs dl wb : Bool) : ∀ (kids : List WChild) (prev : Prev), NeutralS (wKids fr fs dl wb prev kids)
-  | [], _ => by simp only [wKids]; exact neutralS_nil
-  | .raw b :: r, prev => by
-    simp only [wKids]
-    apply neutralS_append _ (wKids_neutralS fr fs dl wb r .raw)
-    cases fr
-    · simp only [Bool.false_eq_true, if_false]
-      intro sd
-      exact sandwichS _ _ _ false false _ (by rfl) (rawToks_neutralS b) (by rfl) sd
-    · simp only [if_true]
-      intro sd
-      exact sandwichS _ _ _ false false _ (by rfl) (rawToks_neutralS b) (by rfl) sd
-  | .sec s :: r, prev => by
-    simp only [wKids]
-    exact neutralS_append (neutralS_append (wTrans_neutralS fs prev) (emitIW_neutralS _ _ _ _ _ _))
-      (wKids_neutralS fr fs dl wb r (.sec s.fw))
 
 theorem neutralS_ite (cnd : Prop) [Decidable cnd] {a b : List Tok} (ha : NeutralS a) (hb : NeutralS b) :
     NeutralS (if cnd then a else b) := by
   split <;> assumption
 
-theorem mid_neutralS (w : Wrapper) : NeutralS w.mid := by
-  unfold Wrapper.mid
-  simp only
-  refine neutralS_append (neutralS_append ?_ (wKids_neutralS _ _ _ _ _ _)) ?_
-  · exact neutralS_ite _ (closedS _ (by rfl)) (neutralS_ite _ (closedS _ (by rfl)) (closedS _ (by rfl)))
-  · exact neutralS_ite _ (closedS _ (by rfl))
-      (neutralS_ite _ neutralS_nil (neutralS_ite _ (closedS _ (by rfl)) (closedS _ (by rfl))))
+/-- the wrapper's Outlook part is neutral for the combined machine (`mid_neutral`, every configuration), hence for the standard
+    client's machine -/
+theorem mid_neutralS (w : Wrapper) : NeutralS w.mid := neutralS_of_neutral (mid_neutral w)
 
 /-- a wrapper, whatever it contains: consumes a pending comment (if it is not full-width), restores the standard client's stack
     and ends in standard mode -/
